@@ -162,7 +162,7 @@ Example core4_refuted_nested_inline_map :
   | PRDoc d' _ warns => d' = r_nested_map /\ map wsub warns = [8]
   | _ => False
   end.
-Proof. repeat split; vm_compute; reflexivity. Qed.
+Proof. split; [reflexivity|]. split; [vm_compute; reflexivity|]. split; [vm_compute; reflexivity|]. vm_compute. split; reflexivity. Qed.
 
 (* (5) a list opened at bracket depth 100: E_MAX_NESTING_EXCEEDED [wf_doc = true]; 99 levels are fine (nest99 above) *)
 Example core4_refuted_nesting_100 :
@@ -197,7 +197,7 @@ Example core4_refuted_noncanonical_numeric_key :
   reads4 true (fun _ => false) nc7 r_key_007 = Some (d1 (VList [VMap [(lit "7", n1)]])).
 Proof.
   split; [reflexivity|]. split; [vm_compute; reflexivity|]. split; [|vm_compute; reflexivity].
-  cbn. intros [[[Hk _] _] _]. destruct (Hk eq_refl) as (isf & E). vm_compute in E. discriminate E.
+  cbn. intros [[[[Hk _] _] _] _]. destruct (Hk eq_refl) as (isf & E). vm_compute in E. discriminate E.
 Qed.
 
 (* (9) a bare-word map value directly followed by the next item's `K::` is NOT a problem: the comma separates them *)
